@@ -6,7 +6,7 @@
 (* internal buffer times the buffer's duration.                              *)
 (* One session: a running clock, one set_speed(target, tween of d buffers),  *)
 (* callbacks of exactly one internal buffer each.                            *)
-(*   reset u0 v0n v0d u1 v1n v1d d dtn dtd    units "tps" | "spt", values as  *)
+(*   reset u0 v0n v0d u1 v1n v1d d dtn dtd    units "tps" | "spt" | "tpm", values as  *)
 (*                      fractions, duration in buffers, buffer time dtn/dtd s *)
 (*   tw k t4            after the k-th buffer since the command was read      *)
 (*                      (k = 0: the time when it was read): time * 10^4       *)
@@ -16,25 +16,31 @@ EXTENDS Integers
 S4 == 10000
 PInit(c) == [c |-> c, t0 |-> -1, exp |-> 0]
 
+\* S4 * a / b without leaving 32 bits: the fraction is reduced first, then split into quotient and remainder
+RECURSIVE Gcd(_, _)
+Gcd(a, b) == IF b = 0 THEN a ELSE Gcd(b, a % b)
+MulDiv(a0, b0) == LET g == Gcd(a0, b0)  a == a0 \div g  b == b0 \div g
+                  IN S4 * (a \div b) + (S4 * (a % b)) \div b
+
+\* the speed before the tween in ticks per second, as a fraction
+TpsN(c) == IF c.u0 = "tps" THEN c.v0n ELSE IF c.u0 = "spt" THEN c.v0d ELSE c.v0n
+TpsD(c) == IF c.u0 = "tps" THEN c.v0d ELSE IF c.u0 = "spt" THEN c.v0n ELSE 60 * c.v0d
+\* ... expressed in the unit of the target ("tps" ticks per second, "spt" seconds per tick, "tpm" ticks per minute)
+FromN(c) == IF c.u1 = "tps" THEN TpsN(c) ELSE IF c.u1 = "spt" THEN TpsD(c) ELSE 60 * TpsN(c)
+FromD(c) == IF c.u1 = "tps" THEN TpsD(c) ELSE IF c.u1 = "spt" THEN TpsN(c) ELSE TpsD(c)
+
 \* speed in force during buffer k (1-based), in ticks per second * 10^4
 Rate4(c, k) ==
   LET kk == IF k > c.d THEN c.d ELSE k
       dd == IF c.d = 0 THEN 1 ELSE c.d
       x == IF c.d = 0 THEN 1 ELSE kk           \* x / dd = fraction of the tween that has passed
-  IN IF c.u1 = "tps"
-     THEN \* from (in ticks per second) = v0 or 1 / v0
-          LET fn == IF c.u0 = "tps" THEN c.v0n ELSE c.v0d
-              fd == IF c.u0 = "tps" THEN c.v0d ELSE c.v0n
-              \* f + (t - f) x / dd  with f = fn/fd, t = v1n/v1d  ->  (fn v1d dd + (v1n fd - fn v1d) x) / (fd v1d dd)
-              num == fn * c.v1d * dd + (c.v1n * fd - fn * c.v1d) * x
-              den == fd * c.v1d * dd
-          IN (S4 * num) \div den
-     ELSE \* seconds per tick: from = v0 or 1 / v0; the rate is the reciprocal of the interpolated tick length
-          LET fn == IF c.u0 = "spt" THEN c.v0n ELSE c.v0d
-              fd == IF c.u0 = "spt" THEN c.v0d ELSE c.v0n
-              num == fn * c.v1d * dd + (c.v1n * fd - fn * c.v1d) * x
-              den == fd * c.v1d * dd
-          IN (S4 * den) \div num
+      fn == FromN(c)  fd == FromD(c)
+      \* f + (t - f) x / dd  with f = fn/fd, t = v1n/v1d  ->  num / den, in the unit of the target
+      num == fn * c.v1d * dd + (c.v1n * fd - fn * c.v1d) * x
+      den == fd * c.v1d * dd
+  IN IF c.u1 = "tps" THEN MulDiv(num, den)
+     ELSE IF c.u1 = "spt" THEN MulDiv(den, num)
+     ELSE MulDiv(num, 60 * den)
 
 Abs(x) == IF x < 0 THEN -x ELSE x
 Check(m, e) ==
